@@ -321,7 +321,6 @@ Proof.
     subst t0. unfold new_transfer, set_exc, set_registered, done_transfer in *. cbn in *.
     destruct (norm_raises n r) eqn:E; constructor; cbn; try rewrite E; cbn;
       try reflexivity; try congruence; try (destruct k; reflexivity); try lia.
-    + intros _. auto.
   - subst t0. unfold canon, done_evs, handler_evs. cbn. reflexivity.
 Qed.
 
@@ -333,7 +332,6 @@ Proof.
   intros id k n r t1. split.
   - subst t1. constructor; cbn; try reflexivity; try discriminate.
     + apply norm_raises_nsubs.
-    + destruct k; reflexivity.
   - subst t1. unfold canon. cbn. now rewrite app_nil_r.
 Qed.
 
@@ -352,22 +350,20 @@ Proof.
   rewrite He in *. cbn in H4. rewrite H4 in *. cbn in H2. rewrite H2 in *.
   split; [|split; [|exact H1]].
   - subst t0 o'. unfold done_transfer, set_crt, uses_handler. cbn.
-    constructor; cbn; rewrite ?He; cbn.
-    + destruct (t_raises t); [exact H1|reflexivity].
-    + destruct (t_raises t); [exact H2|reflexivity].
-    + rewrite H3. reflexivity.
+    constructor; cbn; rewrite ?He, ?H1, ?H2, ?H3, ?H4; cbn.
+    + destruct (t_raises t); reflexivity.
+    + destruct (t_raises t); reflexivity.
+    + reflexivity.
     + reflexivity.
     + exact H5.
     + exact H6.
-    + unfold expected_temp. cbn. rewrite He.
-      unfold expected_temp in H7. rewrite He, Ec in H7.
+    + unfold expected_temp. cbn. rewrite ?He.
+      unfold expected_temp in H7. rewrite ?He, ?Ec in H7.
       destruct (t_kind t); cbn; try exact H7. destruct o; reflexivity.
     + intros E. destruct (t_kind t), o; cbn in E; try discriminate; reflexivity.
     + discriminate.
   - subst t0 o'. unfold canon, done_evs, handler_evs, uses_handler, set_crt, done_transfer, sub_evs, tail_evs.
     cbn. rewrite He, H4. rewrite app_nil_r.
-    change (EvAcquire :: queued_evs (t_nsubs t)) with ([EvAcquire] ++ queued_evs (t_nsubs t)).
-    rewrite <- !app_assoc. do 2 f_equal.
     destruct (t_kind t); reflexivity.
 Qed.
 
@@ -385,7 +381,6 @@ Proof.
   intros N HN. constructor; cbn; try lia.
   - constructor.
   - intros [|i] t H; discriminate.
-  - intros i e [].
 Qed.
 
 (** Appending transfer [t1] whose events [evs] are its canonical ones. *)
@@ -422,22 +417,19 @@ Proof.
                   done_evs false Err (set_exc (new_transfer (next_id s) k n r) true)) =
                  (if norm_raises n r then 0 else 1) - 1).
     { rewrite sem_delta_app, sem_delta_done_evs. cbn [sem_delta sem_delta1].
-      rewrite sem_delta_queued. cbn. lia. }
+      rewrite sem_delta_queued. cbn. destruct (norm_raises n r); lia. }
     destruct (norm_raises n r) eqn:Er; cbn [fst negb] in *.
     + apply inv_append; try assumption.
-      * revert Hwf. unfold set_registered, done_transfer. cbn. rewrite Er. auto.
       * rewrite Hd. lia.
       * rewrite Hd. cbn. rewrite Er. reflexivity.
     + apply inv_append; try assumption.
-      * rewrite <- Hc. unfold canon. reflexivity.
       * rewrite Hd. lia.
       * rewrite Hd. cbn. rewrite Er. reflexivity.
   - cbn [fst]. destruct (wf_fresh (next_id s) k n r) as [Hwf Hc].
     assert (Hd : sem_delta (EvAcquire :: queued_evs n) = -1).
     { cbn [sem_delta sem_delta1]. rewrite sem_delta_queued. reflexivity. }
     apply inv_append; try assumption.
-    + rewrite Hd. lia.
-    + rewrite Hd. reflexivity.
+    rewrite Hd. lia.
 Qed.
 
 Lemma inv_complete : forall N s i o, Inv N s -> Inv N (fst (complete i o s)).
@@ -520,3 +512,356 @@ Definition Reachable (N : Z) (s : state) : Prop := exists ops, s = run (init N) 
 
 Lemma reachable_inv : forall N s, 0 <= N -> Reachable N s -> Inv N s.
 Proof. intros N s HN [ops ->]. apply inv_run. now apply inv_init. Qed.
+
+(** * Permit conservation *)
+
+Lemma wf_rel_le1 : forall t, wf t -> (t_releases t <= 1)%nat.
+Proof. intros t H. rewrite (wf_rel t H). destruct (t_after t); lia. Qed.
+
+Lemma holding_sum : forall ts, Forall wf ts -> (holding ts + sum_rel ts = length ts)%nat.
+Proof.
+  intros ts H. unfold holding. induction H as [|t r Ht Hr IH]; cbn; [reflexivity|].
+  pose proof (wf_rel_le1 t Ht) as Hle.
+  destruct (t_releases t) as [|[|k]] eqn:E; cbn; lia.
+Qed.
+
+Lemma inv_conservation : forall N s, Inv N s ->
+  permits s + Z.of_nat (holding (transfers s)) = N /\ 0 <= permits s <= N.
+Proof.
+  intros N s [I1 I2 I3 _ _]. pose proof (holding_sum _ I3) as H. split; lia.
+Qed.
+
+(** * Exactly one release per transfer *)
+
+Lemma ev_eq_dec : forall a b : ev, {a = b} + {a <> b}.
+Proof. decide equality; apply Nat.eq_dec. Defined.
+
+Definition count (e : ev) (l : list ev) : nat := count_occ ev_eq_dec l e.
+
+Lemma count_app : forall e a b, count e (a ++ b) = (count e a + count e b)%nat.
+Proof. intros. unfold count. apply count_occ_app. Qed.
+
+Lemma count_map0 : forall e (f : nat -> ev) l, (forall k, f k <> e) -> count e (map f l) = 0%nat.
+Proof.
+  intros e f l H. unfold count. induction l as [|k r IH]; cbn; [reflexivity|].
+  destruct (ev_eq_dec (f k) e) as [E|_]; [now apply H in E|exact IH].
+Qed.
+
+Lemma count_canon : forall e t,
+  (forall k, EvQueued k <> e) -> (forall k, EvSubDone k <> e) ->
+  count e (canon t) =
+  (count e [EvAcquire] +
+   if t_on_done_ran t then count e (handler_evs t) + count e (tail_evs t) else 0)%nat.
+Proof.
+  intros e t Hq Hs. unfold canon.
+  change (EvAcquire :: queued_evs (t_nsubs t) ++ ?x) with ([EvAcquire] ++ queued_evs (t_nsubs t) ++ x).
+  rewrite !count_app. unfold queued_evs. rewrite (count_map0 e EvQueued) by exact Hq.
+  destruct (t_on_done_ran t).
+  - rewrite !count_app. unfold sub_evs. rewrite (count_map0 e EvSubDone) by exact Hs. lia.
+  - cbn. lia.
+Qed.
+
+Lemma count_handler_release : forall t,
+  count EvRelease (handler_evs t) = 0%nat /\ count EvAcquire (handler_evs t) = 0%nat /\
+  count EvAfter (handler_evs t) = 0%nat.
+Proof.
+  intros t. unfold handler_evs.
+  destruct (t_exc t); [repeat split; reflexivity|].
+  destruct (t_kind t); try (repeat split; reflexivity).
+  destruct (t_crt t) as [[]|]; repeat split; reflexivity.
+Qed.
+
+Lemma wf_release_count : forall t, wf t ->
+  count EvRelease (canon t) = t_releases t /\
+  count EvAcquire (canon t) = 1%nat /\
+  count EvAfter (canon t) = (if t_after t then 1 else 0)%nat.
+Proof.
+  intros t H. destruct (count_handler_release t) as [H1 [H2 H3]].
+  rewrite !count_canon by (intros; discriminate). rewrite H1, H2, H3.
+  rewrite (wf_rel t H), (wf_after t H). unfold tail_evs.
+  destruct (t_on_done_ran t), (t_raises t); repeat split; reflexivity.
+Qed.
+
+Lemma inv_one_release : forall N s i t, Inv N s -> nth_error (transfers s) i = Some t ->
+  count EvRelease (proj i (log s)) = t_releases t /\
+  count EvAcquire (proj i (log s)) = 1%nat /\
+  (t_releases t <= 1)%nat /\
+  (t_on_done_ran t = false -> t_releases t = 0%nat) /\
+  (t_on_done_ran t = true -> t_raises t = false -> t_releases t = 1%nat) /\
+  (t_on_done_ran t = true -> t_raises t = true -> t_releases t = 0%nat) /\
+  (t_on_done_ran t = true <-> (t_exc t = true \/ exists o, t_crt t = Some o)).
+Proof.
+  intros N s i t HI Hn. pose proof (inv_log N s HI i t Hn) as Hl.
+  assert (Hw : wf t).
+  { pose proof (inv_wf N s HI) as HF. rewrite Forall_forall in HF. apply HF.
+    eapply nth_error_In. exact Hn. }
+  destruct (wf_release_count t Hw) as [C1 [C2 _]]. rewrite Hl.
+  split; [exact C1|]. split; [exact C2|]. split; [now apply wf_rel_le1|].
+  pose proof (wf_rel t Hw) as R. pose proof (wf_after t Hw) as A. pose proof (wf_ran t Hw) as Q.
+  repeat split.
+  - intros E. rewrite E in A. cbn in A. now rewrite A in R.
+  - intros E1 E2. rewrite E1, E2 in A. cbn in A. now rewrite A in R.
+  - intros E1 E2. rewrite E1, E2 in A. cbn in A. now rewrite A in R.
+  - intros E. rewrite E in Q. symmetry in Q. apply orb_prop in Q.
+    destruct Q as [Q|Q]; [now left|]. right. destruct (t_crt t) as [o|]; [now exists o|discriminate].
+  - intros [E|[o E]]; rewrite Q, E; [reflexivity|]. cbn. apply orb_true_r.
+Qed.
+
+(** * Order of the done callbacks *)
+
+Definition handler_final (t : transfer) : ev :=
+  match t_crt t with Some Ok => EvRename | _ => EvRemove end.
+
+Lemma notin_map : forall (f : nat -> ev) b l, (forall k, f k <> b) -> ~ In b (map f l).
+Proof.
+  intros f b l H Hin. apply in_map_iff in Hin. destruct Hin as [k [E _]]. now apply H in E.
+Qed.
+
+Lemma precedes_cons_other : forall A (a b c : A) l, c <> b ->
+  precedes a b l -> precedes a b (c :: l).
+Proof.
+  intros A a b c l Hne H l1 l2 E. destruct l1 as [|x l1']; cbn in E.
+  - injection E as E _. congruence.
+  - injection E as -> E. right. now apply (H l1' l2).
+Qed.
+
+Lemma precedes_tail : forall t, precedes EvRelease EvAfter (tail_evs t).
+Proof.
+  intros t. unfold tail_evs. destruct (t_raises t).
+  - apply precedes_notin. intros [].
+  - intros l1 l2 E. destruct l1 as [|x [|y l1']]; cbn in E; try discriminate.
+    + injection E as -> _. now left.
+    + injection E as _ _ E. destruct l1'; discriminate.
+Qed.
+
+Lemma canon_order : forall t, wf t ->
+  (forall k, (k < t_nsubs t)%nat ->
+     precedes (EvSubDone k) EvRelease (canon t) /\ precedes (EvSubDone k) EvAfter (canon t)) /\
+  precedes EvRelease EvAfter (canon t) /\
+  (t_kind t = DownloadPath -> t_exc t = false ->
+     (forall k, precedes (handler_final t) (EvSubDone k) (canon t)) /\
+     precedes (handler_final t) EvRelease (canon t) /\
+     precedes (handler_final t) EvAfter (canon t)).
+Proof.
+  intros t Hw. unfold canon.
+  assert (Hq : forall b, (forall k, EvQueued k <> b) -> ~ In b (queued_evs (t_nsubs t))).
+  { intros b Hb. apply notin_map. exact Hb. }
+  assert (Hs : forall b, (forall k, EvSubDone k <> b) -> ~ In b (sub_evs t)).
+  { intros b Hb. apply notin_map. exact Hb. }
+  assert (Hh : forall b, b = EvRelease \/ b = EvAfter \/ (exists k, b = EvSubDone k) ->
+               ~ In b (handler_evs t)).
+  { intros b Hb Hin. unfold handler_evs in Hin. destruct (t_exc t); [easy|].
+    destruct (t_kind t); try easy. destruct (t_crt t) as [[]|]; cbn in Hin;
+      destruct Hb as [->|[->|[k ->]]]; intuition discriminate. }
+  assert (Hpre : forall a b D, b <> EvAcquire -> (forall k, EvQueued k <> b) ->
+            precedes a b D -> precedes a b (EvAcquire :: queued_evs (t_nsubs t) ++ D)).
+  { intros a b D H1 H2 HD. apply precedes_cons_other; [congruence|].
+    apply precedes_app; [apply precedes_notin, Hq, H2|now left]. }
+  destruct (t_on_done_ran t) eqn:Er.
+  2:{ repeat split; intros; apply Hpre; try discriminate; apply precedes_notin; intros []. }
+  split; [|split].
+  - intros k Hk.
+    assert (Hin : In (EvSubDone k) (sub_evs t)).
+    { unfold sub_evs. apply in_map. apply in_seq. lia. }
+    split; apply Hpre; try discriminate.
+    + apply precedes_app; [apply precedes_notin, Hh; auto|left].
+      apply precedes_app; [apply precedes_notin, Hs; discriminate|now right].
+    + apply precedes_app; [apply precedes_notin, Hh; auto|left].
+      apply precedes_app; [apply precedes_notin, Hs; discriminate|now right].
+  - apply Hpre; try discriminate.
+    apply precedes_app; [apply precedes_notin, Hh; auto|left].
+    apply precedes_app; [apply precedes_notin, Hs; discriminate|left]. apply precedes_tail.
+  - intros Hk He.
+    assert (Hin : In (handler_final t) (handler_evs t)).
+    { pose proof (wf_ran t Hw) as Q. rewrite Er, He in Q. cbn in Q.
+      unfold handler_evs, handler_final. rewrite He, Hk.
+      destruct (t_crt t) as [[]|]; cbn; try discriminate; auto. }
+    repeat split; intros; (apply Hpre; try discriminate);
+      (apply precedes_app; [apply precedes_notin, Hh; eauto|now right]).
+Qed.
+
+Lemma inv_order : forall N s i t, Inv N s -> nth_error (transfers s) i = Some t ->
+  (forall k, (k < t_nsubs t)%nat ->
+     precedes (i, EvSubDone k) (i, EvRelease) (log s) /\
+     precedes (i, EvSubDone k) (i, EvAfter) (log s)) /\
+  precedes (i, EvRelease) (i, EvAfter) (log s) /\
+  (t_kind t = DownloadPath -> t_exc t = false ->
+     (forall k, precedes (i, handler_final t) (i, EvSubDone k) (log s)) /\
+     precedes (i, handler_final t) (i, EvRelease) (log s) /\
+     precedes (i, handler_final t) (i, EvAfter) (log s)).
+Proof.
+  intros N s i t HI Hn. pose proof (inv_log N s HI i t Hn) as Hl.
+  assert (Hw : wf t).
+  { pose proof (inv_wf N s HI) as HF. rewrite Forall_forall in HF. apply HF.
+    eapply nth_error_In. exact Hn. }
+  destruct (canon_order t Hw) as [H1 [H2 H3]]. rewrite <- Hl in H1, H2, H3.
+  split; [|split].
+  - intros k Hk. destruct (H1 k Hk). split; now apply precedes_proj.
+  - now apply precedes_proj.
+  - intros Hk He. destruct (H3 Hk He) as [A [B C]].
+    split; [|split]; intros; now apply precedes_proj.
+Qed.
+
+(** * Publish or remove *)
+
+Lemma inv_publish_or_remove : forall N s i t, Inv N s -> nth_error (transfers s) i = Some t ->
+  let p := proj i (log s) in
+  (t_kind t = DownloadPath -> t_exc t = false ->
+     match t_crt t with
+     | None => t_temp t = TTemp /\ count EvRename p = 0%nat /\ count EvRemove p = 0%nat
+     | Some Ok => t_temp t = TRenamed /\ count EvRename p = 1%nat /\ count EvRemove p = 0%nat
+     | Some _ => t_temp t = TRemoved /\ count EvRename p = 0%nat /\ count EvRemove p = 1%nat
+     end) /\
+  ((t_kind t <> DownloadPath \/ t_exc t = true) ->
+     t_temp t = TAbsent /\ count EvRename p = 0%nat /\ count EvRemove p = 0%nat).
+Proof.
+  intros N s i t HI Hn p. subst p. rewrite (inv_log N s HI i t Hn).
+  assert (Hw : wf t).
+  { pose proof (inv_wf N s HI) as HF. rewrite Forall_forall in HF. apply HF.
+    eapply nth_error_In. exact Hn. }
+  rewrite !count_canon by (intros; discriminate).
+  pose proof (wf_temp t Hw) as T. pose proof (wf_ran t Hw) as Q. pose proof (wf_exc t Hw) as X.
+  unfold expected_temp in T. unfold handler_evs, tail_evs.
+  split.
+  - intros Hk He. rewrite Hk, He in *. cbn in Q. rewrite Q.
+    destruct (t_crt t) as [[]|]; cbn; destruct (t_raises t); cbn; auto.
+  - intros [Hk|He].
+    + destruct (t_kind t); try congruence;
+        destruct (t_exc t), (t_on_done_ran t), (t_raises t); cbn; auto.
+    + rewrite He in *. destruct (t_kind t), (t_on_done_ran t), (t_raises t); cbn; auto.
+Qed.
+
+(** * Shutdown *)
+
+Lemma wait_blocks_false : forall ts, wait_blocks ts = false ->
+  forall t, In t ts -> t_registered t = true -> t_after t = true.
+Proof.
+  intros ts H t Hin Hr. unfold wait_blocks in H.
+  destruct (t_after t) eqn:Ea; [reflexivity|]. exfalso.
+  assert (E : existsb (fun t => t_registered t && negb (t_after t)) ts = true).
+  { apply existsb_exists. exists t. split; [exact Hin|]. now rewrite Hr, Ea. }
+  congruence.
+Qed.
+
+Lemma wait_blocks_true : forall ts, wait_blocks ts = true ->
+  exists t, In t ts /\ t_registered t = true /\ t_after t = false.
+Proof.
+  intros ts H. apply existsb_exists in H. destruct H as [t [Hin H]].
+  apply andb_prop in H. destruct H as [H1 H2]. apply negb_true_iff in H2. eauto.
+Qed.
+
+Lemma finish_blocks_wait_blocks : forall ts, Forall wf ts ->
+  finish_scan ts = FinBlocks -> wait_blocks ts = true.
+Proof.
+  intros ts H. induction H as [|t r Ht Hr IH]; [discriminate|].
+  intros E.
+  change (wait_blocks (t :: r)) with ((t_registered t && negb (t_after t)) || wait_blocks r).
+  cbn [finish_scan] in E.
+  destruct (t_registered t) eqn:Eg; cbn [negb andb] in *.
+  - destruct (t_exc t) eqn:Ee; [discriminate|].
+    destruct (t_crt t) as [[]|] eqn:Ec; try discriminate.
+    + rewrite (IH E). apply orb_true_r.
+    + rewrite (IH E). apply orb_true_r.
+    + pose proof (wf_after t Ht) as A. pose proof (wf_ran t Ht) as Q.
+      rewrite Ee, Ec in Q. cbn in Q. rewrite Q in A. cbn in A. rewrite A. reflexivity.
+  - cbn [orb]. now apply IH.
+Qed.
+
+Lemma inv_shutdown_waits : forall N s c s' r, Inv N s -> shutdown c s = (s', r) ->
+  (r = RReturned \/ r = RHang) /\
+  (r = RReturned <->
+   forall t, In t (transfers s') -> t_registered t = true -> t_after t = true) /\
+  (r = RReturned -> forall t, In t (transfers s') -> t_registered t = true ->
+     t_on_done_ran t = true /\ t_subs_done t = t_nsubs t /\ t_releases t = 1%nat /\
+     t_temp t <> TTemp).
+Proof.
+  intros N s c s' r HI H.
+  assert (HI' : Inv N s').
+  { pose proof (inv_shutdown N s c HI) as X. now rewrite H in X. }
+  pose proof (inv_wf N s' HI') as HF.
+  assert (Hs : s' = if c then cancel_all s else s).
+  { pose proof (shutdown_state c s) as X. now rewrite H in X. }
+  unfold shutdown in H. rewrite <- Hs in H.
+  assert (Hiff : r = RReturned <->
+     forall t, In t (transfers s') -> t_registered t = true -> t_after t = true).
+  { destruct (finish_scan (transfers s')) eqn:Ef.
+    - destruct (wait_blocks (transfers s')) eqn:Ew; injection H as <-.
+      + split; [discriminate|]. intros X. apply wait_blocks_true in Ew.
+        destruct Ew as [t [A [B C]]]. rewrite (X t A B) in C. discriminate.
+      + split; [|reflexivity]. intros _. now apply wait_blocks_false.
+    - destruct (wait_blocks (transfers s')) eqn:Ew; injection H as <-.
+      + split; [discriminate|]. intros X. apply wait_blocks_true in Ew.
+        destruct Ew as [t [A [B C]]]. rewrite (X t A B) in C. discriminate.
+      + split; [|reflexivity]. intros _. now apply wait_blocks_false.
+    - injection H as <-. split; [discriminate|]. intros X.
+      pose proof (finish_blocks_wait_blocks _ HF Ef) as Ew. apply wait_blocks_true in Ew.
+      destruct Ew as [t [A [B C]]]. rewrite (X t A B) in C. discriminate. }
+  split; [|split; [exact Hiff|]].
+  - destruct (finish_scan (transfers s')); [destruct (wait_blocks _)|destruct (wait_blocks _)|];
+      injection H as <-; auto.
+  - intros Hr t Hin Hg. pose proof (proj1 Hiff Hr t Hin Hg) as Ha.
+    rewrite Forall_forall in HF. pose proof (HF t Hin) as Hw.
+    pose proof (wf_after t Hw) as A. rewrite Ha in A. symmetry in A.
+    apply andb_prop in A. destruct A as [A1 A2].
+    split; [exact A1|]. split; [rewrite (wf_subs t Hw), A1; reflexivity|].
+    split; [rewrite (wf_rel t Hw), Ha; reflexivity|].
+    rewrite (wf_temp t Hw). unfold expected_temp.
+    pose proof (wf_ran t Hw) as Q. rewrite A1 in Q.
+    destruct (t_kind t); try discriminate. destruct (t_exc t); [discriminate|].
+    cbn in Q. destruct (t_crt t) as [[]|]; discriminate.
+Qed.
+
+(** * Blocking at zero permits *)
+
+Lemma submit_blocks : forall s k n r f, permits s <= 0 ->
+  submit k n r f s = (s, RWouldBlock).
+Proof.
+  intros s k n r f H. unfold submit. apply Z.leb_le in H. now rewrite H.
+Qed.
+
+Lemma submit_result : forall s k n r f s' res, submit k n r f s = (s', res) ->
+  (res = RWouldBlock /\ s' = s /\ permits s <= 0) \/
+  (res = RSubmitted /\ 0 < permits s /\
+     length (transfers s') = S (length (transfers s))) \/
+  (res = RRaised /\ 0 < permits s /\ f = true /\ norm_raises n r = true).
+Proof.
+  intros s k n r f s' res H. unfold submit in H.
+  destruct (permits s <=? 0) eqn:Ep.
+  - apply Z.leb_le in Ep. injection H as <- <-. auto.
+  - apply Z.leb_gt in Ep. destruct f.
+    + rewrite run_on_done_eq in H by (cbn; apply norm_raises_nsubs).
+      cbn [t_raises set_exc new_transfer] in H.
+      destruct (norm_raises n r) eqn:Er; injection H as <- <-.
+      * right. right. auto.
+      * right. left. cbn. rewrite app_length. cbn. repeat split; [exact Ep|lia].
+    + injection H as <- <-. right. left. cbn. rewrite app_length. cbn.
+      repeat split; [exact Ep|lia].
+Qed.
+
+Lemma submit_ok_permits : forall s k n r, 0 < permits s ->
+  permits (fst (submit k n r false s)) = permits s - 1.
+Proof.
+  intros s k n r H. unfold submit. apply Z.leb_gt in H. rewrite H. cbn [fst permits].
+  cbn [sem_delta sem_delta1]. rewrite sem_delta_queued. lia.
+Qed.
+
+Lemma fill_permits : forall k n r m s, Z.of_nat m <= permits s ->
+  permits (run s (repeat (OSubmit k n r false) m)) = permits s - Z.of_nat m.
+Proof.
+  intros k n r m. induction m as [|m IH]; intros s H; [cbn; lia|].
+  cbn [repeat]. unfold run. cbn [fold_left step]. fold (run (fst (submit k n r false s)) (repeat (OSubmit k n r false) m)).
+  rewrite IH; rewrite submit_ok_permits; lia.
+Qed.
+
+Lemma fill_then_blocks : forall N k n r, 0 <= N ->
+  let s := run (init N) (repeat (OSubmit k n r false) (Z.to_nat N)) in
+  permits s = 0 /\ Z.of_nat (holding (transfers s)) = N /\
+  forall k' n' r' f', submit k' n' r' f' s = (s, RWouldBlock).
+Proof.
+  intros N k n r HN s.
+  assert (Hp : permits s = 0).
+  { subst s. rewrite fill_permits; cbn [permits init]; lia. }
+  assert (HI : Inv N s) by (apply inv_run; now apply inv_init).
+  destruct (inv_conservation N s HI) as [C _].
+  split; [exact Hp|]. split; [lia|]. intros. apply submit_blocks. lia.
+Qed.
